@@ -12,6 +12,8 @@ import (
 	"net/url"
 
 	"github.com/bolkedebruin/rdpgw/cmd/rdpgw/identity"
+	"github.com/bolkedebruin/rdpgw/cmd/rdpgw/protocol"
+	"github.com/bolkedebruin/rdpgw/cmd/rdpgw/security"
 	rdpparser "github.com/bolkedebruin/rdpgw/cmd/rdpgw/rdp/koanf/parsers/rdp"
 )
 
@@ -236,4 +238,49 @@ func VP_C19_download_any_host() {
 	vpAssert(fa == vpBuilt.Settings.FullAddress && fa == host, "target-reads-back-as-the-builder-held-it")
 	vpAssert(un == vpBuilt.Settings.Username && un == user, "user-name-reads-back-as-the-builder-held-it")
 	vpAssert(gh == "gw.example:443", "gateway-reads-back-as-configured")
+}
+
+//vp:property C03 C12 C07
+//vp:bounds the download endpoint and the tunnel's host policy share ONE host list, as main() wires them (security.Hosts and web.Config.Hosts are the same slice): one templated entry "pc-" + placeholder and one plain entry; host selection unsigned; user "al" downloads a connection file for the plain host, then the tunnel of user "bo" asks for its own machine "pc-bo" and for al's machine "pc-al"
+//vp:assume real RDP builder; the policy is the security package's CheckHost, executed for real
+//vp:reach downloaded
+func VP_C03_hosts_shared_with_policy() {
+	vpResetWeb()
+	vpRealBuilder = true
+	defer func() { vpRealBuilder = false }()
+	vpBuilt, vpServed, vpServedBody = nil, 0, ""
+	hosts := []string{"pc-{{ preferred_username }}", "shared.example"}
+	saveHosts, saveSel := security.Hosts, security.HostSelection
+	security.Hosts, security.HostSelection = hosts, "unsigned"
+	defer func() { security.Hosts, security.HostSelection = saveHosts, saveSel }()
+	h := (&Config{
+		PAATokenGenerator:  func(ctx context.Context, u string, host string) (string, error) { return "PAATOKEN", nil },
+		UserTokenGenerator: func(ctx context.Context, u string) (string, error) { return "USERTOKEN", nil },
+		Hosts:              hosts,
+		HostSelection:      "unsigned",
+		GatewayAddress:     &url.URL{Host: "gw.example:443"},
+	}).NewHandler()
+	asked := []string{"shared.example", "pc-al"}[vpIntRange("al-downloads-a-file-for", 0, 1)]
+	vpQueryVals = url.Values{"host": {asked}}
+	id := identity.NewUser()
+	id.SetUserName("al")
+	id.SetAuthenticated(true)
+	id.SetAttribute(identity.AttrClientIp, "198.51.100.7")
+	id.SetAttribute(identity.AttrAccessToken, "AT")
+	w := vpNewRW()
+	h.HandleDownload(w, vpRequest("GET", http.Header{}, id))
+	vpObserve("status", uint64(w.status))
+	vpReach("downloaded")
+	// the tunnel of another user is judged by the configured list, rendered for THAT user
+	bo := identity.NewUser()
+	bo.SetUserName("bo")
+	tun := &protocol.Tunnel{User: bo}
+	ctx := context.WithValue(context.Background(), protocol.CtxTunnel, tun)
+	own, _ := security.CheckHost(ctx, "pc-bo")
+	other, _ := security.CheckHost(ctx, "pc-al")
+	shared, _ := security.CheckHost(ctx, "shared.example")
+	vpAssert(own, "a-users-own-machine-stays-allowed-after-another-users-download")
+	vpAssert(!other, "another-users-machine-stays-refused-after-that-users-download")
+	vpAssert(shared, "the-plain-entry-stays-allowed")
+	vpAssert(hosts[0] == "pc-{{ preferred_username }}" && hosts[1] == "shared.example", "the-configured-host-list-is-not-rewritten")
 }
